@@ -395,7 +395,7 @@ class NetSystem:
         """the consumer subscribes to the target mailbox (one lock region), starts the mailbox threads and
         parks at the first lock acquisition of Mailbox._read"""
         sched, ctid = self.sched, self.consumer.tid
-        for _ in range(6):
+        for _ in range(200):       # through Context.get_iter the constructor's subscribe() calls are steps too
             others = [t for t in sched.threads if t.tid != ctid]
             if others and all(t.state != "new" for t in others):
                 return
@@ -692,6 +692,10 @@ def exec_task(task):
     import time
     t0 = time.time()
     case = task["case"]
+    if task["kind"] == "f1":
+        bad, info, schedule, names = f1_witness()
+        return {"case": case, "kind": "f1", "bad": bad, "counts": info["counts"], "gates": info["gates"],
+                "schedule": schedule, "names": names}
     runner = CaseRunner(case)
     N = case["N"]
     out = {"case": case, "kind": task["kind"], "runs": 0, "steps": 0, "nontrivial": 0, "failures": [],
@@ -829,6 +833,10 @@ def exec_task(task):
         out["sample"] = {"case": tag(case), "schedule_len": len(r.schedule), "outcome": r.outcome,
                          "source_advances": r.system_info["counts"] if r.system_info else None,
                          "max_mailbox": r.system_info["maxbox"] if r.system_info else None}
+    short = [(t_, b_, r_) for (t_, b_, r_) in pending if 0 < len(r_.schedule) <= 40 and t_ is runner.toks]
+    if short:
+        t_, b_, r_ = short[len(short) // 2]
+        out["xcheck"] = {"toks": list(t_), "msched": [b_.mid_of[x] for x in r_.schedule]}
     npool, busy = pool_threads()
     out["threads_left"] = len([t for t in threading.enumerate() if t.name != "tqdm_monitor"]) - 1 - npool + busy
     out["wall"] = round(time.time() - t0, 2)
@@ -900,11 +908,16 @@ def is_fanout(graph):
 def coq_bound(case):
     """B of Props/C13.v for the shapes the theorems cover (relative to p), else None"""
     g, c = case["graph"], case["cap"]
-    if is_chain(g):
-        return len(g["nodes"]) * (2 * c + 1)
-    if is_fanout(g):
-        return 3 * (2 * c + 1)
-    return None
+    if not (is_chain(g) or is_fanout(g)):
+        return None
+    key = (len(g["nodes"]), c)
+    if key not in _BOUNDS:
+        b_chain, b_fanout = [int(x) for x in lib.run_model("C13", ["bounds %d %d" % key])[0].split()]
+        _BOUNDS[key] = (b_chain, b_fanout)
+    return _BOUNDS[key][0] if is_chain(g) else _BOUNDS[key][1]
+
+
+_BOUNDS = {}
 
 
 def build_tasks(ctx):
@@ -938,22 +951,24 @@ def build_tasks(ctx):
             for cap in (1, 2, 3, 4):
                 small = len(g["nodes"]) <= 3 and cap <= 2 and sum(g["savers"].values()) <= 1
                 for p in ((1, 2) if not big else (1, 2, 3)):
-                    ex = (60000 if big else 20000) if (small and p <= 2) else None
-                    if p == 1 or cap <= 2 or big:
+                    ex = (60000 if big else 8000) if (small and p <= 2 and (big or p == 1)) else None
+                    if big or (p == 1 and cap <= 2) or (p == 2 and cap == 3):
                         add("adversarial", g, lazy, cap, p, explore=ex)
-                    add("random", g, lazy, cap, p, n=(40 if big else 6), sticky=rng.choice([0.0, 0.5, 0.85]),
-                        explore=None)
+                    if big or (cap + p) % 2 == 0:
+                        add("random", g, lazy, cap, p, n=(40 if big else 5), sticky=rng.choice([0.0, 0.5, 0.85]),
+                            explore=None)
     # (2) exhaustive enumeration with a preemption bound on the smallest configurations
     for g, lazy, cap, p, N, b in [(chain(2), False, 1, 1, 3, 2), (chain(2), True, 1, 1, 3, 2),
                                   (chain(2), False, 2, 1, 4, 1), (chain(3), True, 1, 1, 2, 1),
                                   (chain(2, savers={0: 1}), True, 1, 1, 3, 1), (fanout(2), True, 1, 1, 2, 1),
                                   (fanout(2), False, 1, 1, 2, 1), (diamond(), True, 1, 1, 2, 1)]:
-        add("dfs", g, lazy, cap, p, N=N, bound_pre=(b + 1 if big else b), max_runs=(20000 if big else 1500))
+        add("dfs", g, lazy, cap, p, N=N, bound_pre=(b + 1 if big else b), max_runs=(20000 if big else 600))
     # (3) through a real Context.get_iter with DataDirectory savers
     for g, store in [(chain(3), [1]), (chain(2), []), (fanout(2, tail=True), [2]), (diamond(), [1])]:
         for lazy in (False, True):
             add("random", g, lazy, rng.randint(1, 3), rng.randint(1, 2), n=(12 if big else 3), sticky=0.5,
                 via="context", store=store, weight=10 ** 5)
+    tasks.append({"kind": "f1", "case": F1_CASE, "weight": 10 ** 7})
     return tasks
 
 
@@ -974,6 +989,9 @@ def run(ctx):
     t0 = time.time()
     results = run_tasks(tasks)
     ctx.notes.append("exploration wall time %.1fs for %d tasks" % (time.time() - t0, len(tasks)))
+    slow = sorted([r for r in results if "wall" in r], key=lambda r: -r["wall"])[:6]
+    ctx.notes.append("slowest tasks: " + "; ".join("%s %s %d runs %.1fs" % (r["kind"], tag(r["case"]), r["runs"], r["wall"])
+                                                   for r in slow))
     summarise(ctx, tasks, results)
 
 
@@ -983,6 +1001,7 @@ def summarise(ctx, tasks, results):
     n_eval = n_nontriv = 0
     strong_hits = []
     concrete = False
+    xchecks = []
     for t, r in zip(tasks, results):
         c = r["case"]
         if "crash" in r:
@@ -990,6 +1009,11 @@ def summarise(ctx, tasks, results):
                           {"input": "corr:C13/harness-crash", "case": c, "traceback": r["crash"]},
                           no_failing_input=True)
             continue
+        if r["kind"] == "f1":
+            report_f1(ctx, r)
+            continue
+        if r.get("xcheck"):
+            xchecks.append(r["xcheck"])
         unit = unit_of(c)
         d = dist.setdefault(unit, {"tasks": 0, "runs": 0, "steps": 0, "saturated_runs": 0})
         d["tasks"] += 1
@@ -1025,15 +1049,15 @@ def summarise(ctx, tasks, results):
             strong_hits.append((c, s))
     for unit, d in dist.items():
         ctx.coverage["distribution"].setdefault(unit, {}).update(d)
-    # the literal lazy-mode clause (finding F1): report once, with the smallest witness
+    # the literal lazy-mode clause (finding F1) is reported once, by the dedicated witness task
     if strong_hits:
         strong_hits.sort(key=lambda cs: (len(cs[0]["graph"]["nodes"]), len(cs[1]["schedule"])))
-        ctx.notes.append("P4s (literal lazy clause) fails in %d explored configurations; smallest: %s" % (
+        ctx.notes.append("P4s (literal lazy clause) fails in %d explored tasks; smallest: %s" % (
             len(strong_hits), tag(strong_hits[0][0])))
-        replay_f1(ctx)
+    kernel_crosscheck(ctx, xchecks)
     # disagreements: wiring first, then behaviour
     for t, r in zip(tasks, results):
-        if "crash" in r:
+        if "crash" in r or r["kind"] == "f1":
             continue
         c = r["case"]
         unit = unit_of(c)
@@ -1091,15 +1115,77 @@ def f1_witness():
     return (bad, info, res.schedule, holder["sys"].names)
 
 
-def replay_f1(ctx):
-    bad, info, schedule, names = f1_witness()
-    if bad:
+def report_f1(ctx, r):
+    ctx.coverage["f1_witness"] = {"reproduced": bool(r["bad"]), "source_advances": r["counts"]}
+    if r["bad"]:
         ctx.violation("lazy-gate",
                       "lazy mode: source d0 advanced %d times (%d of them while build:d1 was waiting for a chunk "
-                      "that was already in the mailbox) although the consumer stopped after 1 chunk"
-                      % (info["counts"].get("d0", 0), len(bad)),
-                      {"input": F1_INPUT, "schedule": schedule, "threads": names, "gates": info["gates"],
-                       "counts": info["counts"]})
+                      "that was already in the mailbox) although the consumer takes only 2 chunks: _can_fetch "
+                      "compares waiting_for with the LOWEST buffered number, not with what is buffered"
+                      % (r["counts"].get("d0", 0), len(r["bad"])),
+                      {"input": F1_INPUT, "schedule": r["schedule"], "threads": r["names"], "gates": r["gates"],
+                       "counts": r["counts"]})
+    else:
+        ctx.notes.append("finding F1 (lazy gate vs. buffered messages) is not reproduced on this tree: the model's "
+                         "C13_lazy_fetch_strong_refuted witness no longer applies to the implementation")
+
+
+# ------------------------------------------------------------------------------------------
+# extraction cross-check inside Coq
+# ------------------------------------------------------------------------------------------
+def coq_conf(toks):
+    """Coq terms (comps, opts, p, N) for a driver configuration"""
+    t = list(toks)
+    pos = [0]
+
+    def take(n):
+        v = t[pos[0]:pos[0] + n]
+        pos[0] += n
+        return v
+    nl = lambda l: "[" + "; ".join("%d" % x for x in l) + "]"
+    (npl,) = take(1)
+    plugins = [tuple(take(2)) for _ in range(npl)]
+    (nd,) = take(1)
+    defs = []
+    for _ in range(nd):
+        (np_,) = take(1)
+        prov = take(np_)
+        (ndep,) = take(1)
+        deps = take(ndep)
+        (mm,) = take(1)
+        defs.append("mkPlugin %s %s %s" % (nl(prov), nl(deps), "None" if mm < 0 else "(Some %d)" % mm))
+    (nld,) = take(1)
+    loaders = take(nld)
+    (ns,) = take(1)
+    savers = [tuple(take(2)) for _ in range(ns)]
+    target, al, single, mm, p, N = take(6)
+    comps = "(mkComps [%s] [%s] %s [%s] %d)" % (
+        "; ".join("(%d, %d)" % x for x in plugins), "; ".join(defs), nl(loaders),
+        "; ".join("(%d, %d)" % x for x in savers), target)
+    opts = "(mkOpts %s %s %d)" % ("true" if al else "false", "true" if single else "false", mm)
+    return comps, opts, p, N
+
+
+def kernel_crosscheck(ctx, xchecks):
+    if not xchecks:
+        return
+    picks = [xchecks[i] for i in sorted(ctx.rng.sample(range(len(xchecks)), min(24, len(xchecks))))]
+    lines = [line("run", x["toks"], [len(x["msched"])] + x["msched"]) for x in picks]
+    outs = lib.run_model("C13", lines)
+    eqs = []
+    for x, o in zip(picks, outs):
+        body = o.split(" # ")[0]
+        parts = [q.strip() for q in body.split(" | ") if q.strip() and not q.strip().startswith("DISABLED")]
+        comps, opts, p, N = coq_conf(x["toks"])
+        rhs = "[" + "; ".join("[" + "; ".join("(%s)" % v for v in q.split()) + "]" for q in parts) + "]"
+        eqs.append("nrun_obs (net_of (wire %s %s %d) %d)%%nat ([%s])%%nat = (%s)%%Z" % (
+            comps, opts, p, N, "; ".join(str(v) for v in x["msched"]), rhs))
+    n, fails = lib.coq_crosscheck(
+        "C13", "From SV Require Import Base.Prelude Model.Mailbox Model.MailboxNet Model.C13Run.", eqs, shard=8)
+    ctx.coverage.setdefault("kernel_crosscheck", {})["network"] = {"equations": n, "failed_files": len(fails)}
+    if fails:
+        ctx.violation("extraction", "extracted model and Coq vm_compute disagree: " + fails[0][-400:],
+                      {"input": "corr:C13/extraction-crosscheck", "log": fails[0]}, no_failing_input=True)
 
 
 def replay(ctx, obj):
